@@ -411,6 +411,16 @@ def readGeomB (E : Bytes → Bytes → Bytes) (s : State) (file : Bytes) (start 
     ((chunkKey s (0x200 * i)).1.1 != secHeader ||
       (decide ((chunkKey s (0x200 * i)).2 = 0) && decide (lens.getD secHeader 0 = 0x200)))
 
+/-- how many 0x200-byte chunks `get_data(FullDecrypted, offset, size)` plans: the request clamped to the content size of the
+    header, then to what the file really holds behind `start` (`_available_size()`), then aligned -/
+def fullChunks (rsize fileLen start offset : Nat) (size : Int) : Nat :=
+  let size : Int := if (offset : Int) + size > rsize then (rsize : Int) - offset else size
+  let available : Int := (fileLen : Int) - start
+  let size : Int := if (offset : Int) + size > available then available - offset else size
+  if size ≤ 0 then 0 else
+  let alSize : Int := size + (offset % 0x200 : Nat)
+  if alSize ≤ 0 then 0 else (alSize.toNat + 0x1FF) / 0x200
+
 /-- `get_data(FullDecrypted, offset, size)` -/
 def fullRead (E : Bytes → Bytes → Bytes) (s : State) (file : Bytes) (start : Nat) (offset : Nat) (size : Int) :
     Except Err Bytes :=
